@@ -2,6 +2,25 @@
 UNITS = {
     "health": dict(engine="verus", serves=["C20"]),
 }
+
 PROPERTIES = {
-    "C20": dict(units=["health"], assumptions=[]),
+    "C20": dict(
+        units=["health"],
+        technique="Verus contracts on the extracted real functions (update_state refines a spec automaton; inductive history lemmas)",
+        level_text="Deductive proof (Verus/Z3) for all histories: StatusState::update_state, extracted verbatim, is proved to refine the "
+                   "hysteresis automaton written from the statement (thresholds 1/20, saturation 10000) and history lemmas are proved by "
+                   "induction over arbitrary observation sequences; ServiceState::update_service_state_entry is proved against a whole-map "
+                   "postcondition and the call site is proved to pass 120.",
+        level_note="Trusted: Verus/Z3/rustc; &str and String extensionality axioms; vstd HashMap model plus assumed spec of HashMap::get_mut "
+                   "with borrowed str keys; String::to_string/ne specs; that the extension's monitor loop calls update_state once per "
+                   "observation (loop not under contract).",
+        design_ref="DESIGN.md section 3 C20",
+        assumptions=[],
+    ),
 }
+
+NOT_APPLICABLE = {
+    "C12": "secrecy over all outputs is a hyper-property (non-interference); no function contract expressible in Verus/Kani/CBMC here decides 'does not depend on the key' for format!/Display-built text, and a syntactic taint scan is a different family (DESIGN.md section 4)",
+}
+# properties whose units are not built yet are listed as not_applicable by tools/mkmanifest.py with this reason
+NOT_YET = "contract-based check not built yet in this session (planned in DESIGN.md section 3); not claimed until its check verifies the unchanged tree"
